@@ -117,6 +117,17 @@ def entry_points(rng):
         eps.append(('PopulationModel %s' % '+'.join(Sub(**d).describe() for d in case['subs']),
                     lambda case=case: (lambda seed: c06.pop_sample(case, seed=seed)),
                     not any(d['kind'] == 'TG' and not d.get('cov') for d in case['subs']) or case['composed']))
+    for kind, cls, th in (('G', chi.GaussianModel, [1.0, 0.5]), ('LN', chi.LogNormalModel, [0.25, 0.5]),
+                          ('TG', chi.TruncatedGaussianModel, [1.0, 0.75])):
+        eps.append(('PopulationModel bare %s' % kind,
+                    lambda cls=cls, th=th: (lambda seed: np.asarray(cls().sample(th, n_samples=4, seed=seed))),
+                    kind != 'TG'))
+
+        def reduced(cls=cls, th=th):
+            m = chi.ReducedPopulationModel(cls())
+            m.fix_parameters({m.get_parameter_names()[0]: th[0]})
+            return lambda seed: np.asarray(m.sample(th[1:], n_samples=4, seed=seed))
+        eps.append(('PopulationModel reduced %s' % kind, reduced, kind != 'TG'))
     for kinds in (['G'], ['G', 'G'], ['LN', 'G', 'CMG'], ['MG', 'MG']):
         n_out = len(kinds)
         eps.append(('PredictiveModel %s' % '+'.join(kinds),
@@ -202,6 +213,13 @@ def disturb(rng):
 def check_entry(name, make, gen_ok, rng):
     s1, s2 = rng.randrange(1, 10 ** 6), rng.randrange(1, 10 ** 6)
     f = make()
+    # zero is a seed like any other
+    z1 = np.asarray(f(0), dtype=float)
+    disturb(rng)
+    z2 = np.asarray(f(0), dtype=float)
+    z3 = np.asarray(make()(np.int64(0)), dtype=float)
+    if z1.shape != z2.shape or not np.array_equal(z1, z2) or not np.array_equal(z1, z3):
+        return '%s: calls with the seed 0 differ (same object after other random calls, or a fresh object)' % name
     a = np.asarray(f(s1), dtype=float)
     disturb(rng)
     if hasattr(f, 'other'):
@@ -291,6 +309,8 @@ def replay_population_predictive(rng0, ck=None):
     n = rng0.choice([1, 2, 3])
     seed = rng0.randrange(10 ** 6)
     times = rng0.sample([0.5, 1.0, 2.0, 4.0], rng0.choice([1, 2, 3]))
+    if rng0.random() < 0.4:
+        times.insert(rng0.randrange(len(times) + 1), rng0.choice(times))            # a replicate time point
     pop = chi.ComposedPopulationModel([s.build() for s in S])
     ppm = chi.PopulationPredictiveModel(pm, pop)
     g = np.random.default_rng(seed)
@@ -427,6 +447,8 @@ def run(ck):
         kinds = [ck.rng.choice(c06.ERR) for _ in range(ck.rng.choice([1, 2, 3]))]
         n_samples = ck.rng.choice([1, 2, 3])
         times = ck.rng.sample([0.5, 1.0, 1.5, 2.5, 4.0], ck.rng.choice([1, 2, 3]))
+        if ck.rng.random() < 0.4:
+            times.insert(ck.rng.randrange(len(times) + 1), ck.rng.choice(times))    # a replicate time point
         seed = ck.rng.randrange(10 ** 6)
         params = pm_params(kinds)
         case = {'type': 'replay', 'kinds': kinds, 'n_samples': n_samples, 'times': times, 'seed': seed}
